@@ -122,8 +122,10 @@ class Session:
         if o is None:
             o = self.slots[slot] = ph_obj(fields)
         else:
-            for n, v in zip(FIELDS, fields):
-                setattr(o, n, v)
+            # the caller assigns only the fields it wants changed (it knows what it put there before)
+            for n, v, g in zip(FIELDS, fields, self.given[slot]):
+                if v != g:
+                    setattr(o, n, v)
         self.given[slot] = [int(v) for v in fields]
         return o
 
@@ -242,6 +244,119 @@ def impl_stream(style, p, m, f, via="direct", sess=None, call=None):
 
 
 # ------------------------------------------------------------------------------------------
+# driver requests
+# ------------------------------------------------------------------------------------------
+def req_lines(p, m, f, noesc):
+    return f"lines {ph_str(p)} {mode_str(m)} {fmt_str(f)} {int(noesc)}"
+
+
+def style_str(style):
+    if style[0] == "cur":
+        return f"cur:{int(style[1])}:{int(style[2])}"
+    if style[0] == "lfall":
+        return f"lf:{int(style[1])}"
+    if style[0] == "abs":
+        return f"abs:{style[1]}:{style[2]}"
+    if style[0] == "disp":
+        pos = "-" if style[1] is None else f"{style[1][0]}:{style[1][1]}"
+        return f"disp:{pos}:{int(style[2])}:{int(style[3])}"
+    raise KeyError(style[0])
+
+
+def req_stream(style, p, m, f):
+    return f"stream {style_str(style)} {ph_str(p)} {mode_str(m)} {fmt_str(f)}"
+
+
+def req_spec(W, H, cx, cy, cub, rs, onlcr, sgr, data: bytes):
+    return f"spec {W} {H} {cx} {cy} {int(cub)} {int(rs)} {int(onlcr)} {sgr[0]} {sgr[1]} {sgr[2]} {hx(data)}"
+
+
+def model_lines(reply):
+    if not reply.startswith("ok"):
+        return reply, None
+    body = reply[3:]
+    return "ok", ([] if body == "" else [b"" if h == "-" else bytes.fromhex(h) for h in body.split(",")])
+
+
+def model_bytes(reply):
+    if not reply.startswith("ok"):
+        return reply, None
+    body = reply[3:]
+    return "ok", (b"" if body in ("-", "") else bytes.fromhex(body))
+
+
+def parse_spec(reply):
+    """-> dict(cur=(x,y), sgr=[fg,ul,bg], scrolled=int, ph={(y,x):(id,pid,row,col)}, cells={(y,x):(ch,marks,fg,ul,bg)})"""
+    out = {}
+    for part in reply.split(" "):
+        k, _, v = part.partition("=")
+        out[k] = v
+    cx, cy = out["cur"].split(",")
+    ph = {}
+    if out.get("ph"):
+        for e in out["ph"].split(";"):
+            y, x, i, pid, r, c = (int(t) for t in e.split(","))
+            ph[(y, x)] = (i, pid, r, c)
+    cells = {}
+    if out.get("cells"):
+        for e in out["cells"].split(";"):
+            y, x, ch, marks, fg, ul, bg = e.split(",")
+            cells[(int(y), int(x))] = (int(ch), tuple(int(t) for t in marks.split(".") if t), fg, ul, bg)
+    return dict(cur=(int(cx), int(cy)), sgr=out["sgr"].split("/"), scrolled=int(out["scrolled"]), ph=ph, cells=cells)
+
+
+# ------------------------------------------------------------------------------------------
+# expected screen positions (DESIGN.md A.5) — independent of the model
+# ------------------------------------------------------------------------------------------
+def expected(style, p, W, H, x0, y0):
+    """-> (cells {(y,x): (id,pid,row,col)}, final cursor (x,y), scrolled) for an addressable placeholder
+    whose width fits: x0 + C <= W (abs: px + C <= W and py + R <= H)."""
+    i, pid, sc, sr, ec, er = p
+    R, C = er - sr, ec - sc
+    kind = style[0]
+    if kind == "disp":
+        kind, style = ("abs", ["abs", style[1][0], style[1][1]]) if style[1] is not None else ("cur", ["cur", style[2], style[3]])
+    cells = {}
+    if kind == "abs":
+        px, py = style[1], style[2]
+        s = 0
+        pos = lambda a, b: (py + a, px + b)
+        cur = (px + C, py + R - 1)
+    elif kind == "cur" and not style[2]:
+        s = max(0, y0 + R - H)
+        pos = lambda a, b: (y0 - s + a, x0 + b)
+        cur = (x0 + C, min(y0 + R - 1, H - 1))
+    elif kind == "cur":
+        s = max(0, y0 + R - H)
+        pos = lambda a, b: (y0 - s + a, (x0 if a == 0 else 0) + b)
+        cur = ((x0 if R == 1 else 0) + C, min(y0 + R - 1, H - 1))
+    elif kind == "lfall":
+        s = max(0, y0 + R + 1 - H)
+        pos = lambda a, b: (y0 - s + a, (x0 if a == 0 else 0) + b)
+        cur = (0, min(y0 + R, H - 1))
+    else:
+        raise KeyError(kind)
+    for a in range(R):
+        if sr + a >= TABLE:
+            continue          # not addressable: printed as blanks
+        for b in range(C):
+            y, x = pos(a, b)
+            if y >= 0:
+                cells[(y, x)] = (i, pid, sr + a, sc + b)
+    return cells, cur, s
+
+
+def diff_cells(got: dict, want: dict, limit=4):
+    bad = []
+    for k in sorted(set(got) | set(want)):
+        if got.get(k) != want.get(k):
+            bad.append({"pos(y,x)": list(k), "decoded": got.get(k), "expected": want.get(k)})
+            if len(bad) >= limit:
+                break
+    return bad
+
+
+# ------------------------------------------------------------------------------------------
 # sequences of calls in ONE process  (state the library keeps between calls: module-level caches,
 # shared default objects, per-object caches, the keyword form of print_placeholder, call order)
 # ------------------------------------------------------------------------------------------
@@ -291,7 +406,9 @@ def _serve_sequences():
     sys.path.insert(0, str(REPO))
     import tupimage.placeholder  # noqa: F401
     import tupimage.graphics_terminal  # noqa: F401
-    stdin, stdout = sys.stdin.buffer, sys.stdout.buffer
+    stdin = sys.stdin.buffer
+    stdout = os.fdopen(os.dup(1), "wb")     # the protocol channel; anything the library prints goes to stderr
+    os.dup2(2, 1)
     for line in stdin:
         r, w = os.pipe()
         pid = os.fork()
